@@ -85,7 +85,7 @@ def run(ctx, prop):
         for o in r.json_lines():
             if o.get("ev") == "stats":
                 for k in ("ops", "histories", "full_checks", "stop_traversals", "inserts", "replaces", "remove_hit", "remove_miss",
-                          "clears", "lookups", "compares", "destroy_events", "avl_checked", "rb_checked", "intkey_ops", "intkey_notifier_calls", "intkey_notifier_calls_with_null"):
+                          "clears", "lookups", "compares", "destroy_events", "avl_checked", "rb_checked", "intkey_ops", "intkey_notifier_calls", "intkey_notifier_calls_with_null", "intkey_replace_with_stored_value"):
                     tot[k] = tot.get(k, 0) + o.get(k, 0)
                 tot["max_n"] = max(tot.get("max_n", 0), o["max_n"])
                 key = (o["tree"],)
